@@ -415,6 +415,32 @@ theorem not_excludes_series_without_key (F : Flags) (M : Matcher) (st : State) (
     obtain ⟨⟨v, hv⟩, _⟩ := (key t).mp he
     exact hno v hv
 
+/-! ## Trie blocks: the answer does not depend on how a bucket's values are cut into blocks -/
+
+/-- **dictionary_block_partition_independent.** A flushed dictionary bucket is read block by block
+(`TrieBucket.GetValue`: first block that has the key; `FindValuesByLike`/`FindValuesByRegexp`: every
+block). (1) Any two partitions of the same entry list into blocks give the same lookups; (2) the
+partition `TrieBucketBuilder.Write` makes (`blocksOf bs`, any block size `bs > 0`: 32767 at flush,
+65535 when compaction re-splits) loses no entry (`blocks_cover`), so reading it block by block is
+reading the flat entry list — which is what the model's `Dict.findValue` / `Dict.scan` do on
+`files.flatten`. Hence every theorem above holds for every block size. -/
+theorem dictionary_block_partition_independent :
+    (∀ (b1 b2 : List DictPart), b1.flatten = b2.flatten → ∀ kid v pre check,
+        blocksFind b1 kid v = blocksFind b2 kid v ∧ blocksScan b1 kid pre check = blocksScan b2 kid pre check) ∧
+    (∀ (bs : Nat), 0 < bs → ∀ (p : DictPart) kid v pre check,
+        (blocksOf bs p).flatten = p ∧ blocksFind (blocksOf bs p) kid v = partFind p kid v ∧
+        blocksScan (blocksOf bs p) kid pre check =
+          (p.filter (fun e => e.1 == kid && pre.isPrefixOf e.2.1 && check e.2.1)).map (·.2.2)) := by
+  constructor
+  · intro b1 b2 h kid v pre check
+    rw [blocksFind_flatten, blocksFind_flatten, blocksScan_flatten, blocksScan_flatten, h]
+    exact ⟨rfl, rfl⟩
+  · intro bs hbs p kid v pre check
+    have hc := blocks_cover bs hbs p
+    refine ⟨hc, ?_, ?_⟩
+    · rw [blocksFind_flatten, hc]
+    · rw [blocksScan_flatten, hc]
+
 /-! ## The index flush seen from inside -/
 
 /-- the one-step flush of the index stores is the composition of its steps (nobody looking) -/
@@ -548,6 +574,16 @@ theorem tie_scan_grouping :
       ["0:seriesIDHighKey :=", "0:range g.tagKeys", "1:scanners :=", "1:range scanners",
        "2:lowSeriesIDs,tagValueIDs :=", "2:if lowSeriesIDs == nil", "3:continue",
        "2:call ctx.IterateLowSeriesIDs", "3:func-literal", "4:call fn"] := by decide
+
+/-- the block arithmetic of `TrieBucketBuilder.Write` (`numBlocks` rounds UP, the last block is
+clamped to `len(keys)`) and the two block sizes in use — what `numBlocks` / `blocksOf` mirror -/
+theorem tie_trie_blocks :
+    Generated.C10.trieBlockSplit =
+      ["numBlocks := len(keys) / b.blockSize", "if len(keys)%b.blockSize != 0", "numBlocks++",
+       "for i := 0; i < numBlocks; i++", "start := i * b.blockSize", "end := start + b.blockSize",
+       "if end > len(keys)", "end = len(keys)", "Build(kvs.Keys[start:end], kvs.IDs[start:end])",
+       "if err != nil", "if err != nil"] ∧
+    Generated.C10.trieBlockSizes = ["math.MaxInt16", "math.MaxUint16"] := by decide
 
 /-! ## Non-vacuity -/
 
@@ -762,6 +798,15 @@ theorem snapshot_first_reader_misses_flushed_batch :
       (parkedState { dictScanMemFirst := true, invMemFirst := true, fwdMemFirst := true } .inverted s1 s2) mCpu
       (.atom (.eq kHost [97])) = .ok [0, 0] ∧
     (Expr.atom (.eq kHost [97])).eval anchoredMatcher [(kHost, [97])] = true := by decide
+
+/-- **truncated-block-count.** With `numBlocks = max 1 (len / bs)` (no rounding up) the loop writes
+only `numBlocks * bs` keys: the lexicographically last `len % bs` values of the bucket are in no block,
+and an equals lookup on one of them finds nothing. -/
+theorem truncated_block_count_loses_tail :
+    let p : DictPart := [(0, [97], 10), (0, [98], 11), (0, [99], 12)]
+    let trunc := (List.range (max 1 (p.length / 2))).map (fun i => (p.drop (i * 2)).take 2)
+    trunc.flatten = [(0, [97], 10), (0, [98], 11)] ∧ blocksFind trunc 0 [99] = none ∧
+    blocksFind (blocksOf 2 p) 0 [99] = some 12 := by decide
 
 end Neg
 
